@@ -884,7 +884,7 @@ func c11Gen(r *verifh.Rng) []verifh.Section {
 		if r.Chance(1, 25) {
 			max = r.Pick(0, -1)
 		}
-		iv := r.Pick(1, 10, 1000)
+		iv := r.Pick(1, 10, 1000, 0)
 		p := r.Range(1, 4)
 		gate := 0
 		pm := r.Pick(0, 0, 5, 7)
@@ -932,11 +932,14 @@ func c11Gen(r *verifh.Rng) []verifh.Section {
 				sz := r.Intn(8)
 				if kind == "chunk" && r.Chance(3, 5) {
 					// aim at the byte threshold: one below, exactly, one above
-					if want := max + r.Pick(-1, 0, 1) - bytes; want >= 0 && want <= 7 {
+					if want := max + r.Pick(-1, 0, 1) - bytes; want >= 0 && want <= 5 {
 						sz = want
 					}
 				}
-				if bytes += sz; bytes >= max {
+				if kind == "chunk" && r.Chance(1, 6) {
+					sz = 0 // zero-size tasks: buffered without moving the byte count
+				}
+				if bytes += c11Size(sz); bytes >= max {
 					bytes = 0
 				}
 				t := c11T(id, sz)
@@ -993,8 +996,17 @@ func c11Gen(r *verifh.Rng) []verifh.Section {
 
 // ---------------------------------------------------------------------------------------------- executor
 
-// a task is the number 8*id + size: the generator chooses the byte size of every chunk task (0..7)
-func c11Size(x int) int { return x % 8 }
+// a task is the number 8*id + size code: the generator chooses the declared byte size of every chunk task:
+// codes 0..5 are the size itself, 6 is a NEGATIVE size (-2), 7 a huge one (2^40)
+func c11Size(x int) int {
+	switch x % 8 {
+	case 6:
+		return -2
+	case 7:
+		return 1 << 40
+	}
+	return x % 8
+}
 
 func TestVerifC11(t *testing.T) {
 	logx.Disable()
